@@ -85,6 +85,7 @@ func main() {
 	defer func() { _ = os.RemoveAll(dir) }()
 
 	h := &harness{o: o, r: r, m: m, dir: dir}
+	checkUniverse()
 	h.witnessCases()
 	h.scheduleCampaign()
 	h.malformedCampaign()
@@ -106,6 +107,8 @@ type harness struct {
 	m   *hlib.Model
 	dir string
 	seq int
+	// lrng draws the address layouts.
+	lrng *rand.Rand
 }
 
 // ---------------------------------------------------------------------------
@@ -185,31 +188,271 @@ func humStr(n int) agd.HumanIDLower {
 	return agd.HumanIDLower(fmt.Sprintf("h%d", n))
 }
 
-// linkedAddr and dedAddr map the small pools onto all address families a
-// backend can deliver (4 or 16 bytes): IPv4, IPv6 and IPv4-mapped IPv6.  The
-// same number is a different address in the two pools.
-func linkedAddr(n int) netip.Addr {
-	switch {
-	case n == 0:
-		return netip.Addr{}
-	case n%3 == 1:
-		return netip.AddrFrom4([4]byte{192, 0, 2, byte(n)})
-	case n%3 == 2:
-		return netip.AddrFrom16([16]byte{0x20, 0x01, 0x0d, 0xb8, 15: byte(n)})
+// ---------------------------------------------------------------------------
+// Addresses.  A key of the linked / dedicated index is a netip.Addr VALUE: the
+// address family, the IPv4-mapped form and the IPv6 zone are part of it.  The
+// universe below contains, for every host number x, eight such values that
+// differ only in one of these respects ("twins"), x = 0 being the unspecified
+// address of every family.  Every case maps the small key pools 1..nIP of the
+// generators and of the model onto a freshly drawn, injective choice from the
+// universe (its layout), so that twins are live keys of the same database.
+
+const (
+	flV4         = iota // 192.0.2.x
+	flMapped            // ::ffff:192.0.2.x
+	flMappedZone        // ::ffff:192.0.2.x%eth0
+	flV6Prefix          // c000:2xx:: — the IPv4 twin's bytes followed by zeros
+	flV6                // fe80::x
+	flV6Eth0            // fe80::x%eth0
+	flV6Eth1            // fe80::x%eth1
+	flV6LongZone        // fe80::x%<a long zone>
+	nFlavour
+	nHost = 4 // x ∈ 0..3
+)
+
+const longZone = "enp0s31f6.4094:alias-with-a-long-name"
+
+// univAddr is the address of flavour f and host number x; pool 0 is the
+// universe of linked addresses, pool 1 the one of dedicated addresses (other
+// networks, the same unspecified addresses).
+func univAddr(pool, f, x int) netip.Addr {
+	v4 := [4]byte{192, 0, 2, byte(x)}
+	v6 := [16]byte{0: 0xfe, 1: 0x80, 15: byte(x)}
+	if pool == 1 {
+		v4 = [4]byte{198, 51, 100, byte(x)}
+		v6[13] = 1
+	}
+	if x == 0 && f != flV6Prefix {
+		v4, v6 = [4]byte{}, [16]byte{}
+	}
+	mapped := [16]byte{10: 0xff, 11: 0xff, 12: v4[0], 13: v4[1], 14: v4[2], 15: v4[3]}
+	switch f {
+	case flV4:
+		return netip.AddrFrom4(v4)
+	case flMapped:
+		return netip.AddrFrom16(mapped)
+	case flMappedZone:
+		return netip.AddrFrom16(mapped).WithZone("eth0")
+	case flV6Prefix:
+		return netip.AddrFrom16([16]byte{0: v4[0], 1: v4[1], 2: v4[2], 3: v4[3]})
+	case flV6:
+		return netip.AddrFrom16(v6)
+	case flV6Eth0:
+		return netip.AddrFrom16(v6).WithZone("eth0")
+	case flV6Eth1:
+		return netip.AddrFrom16(v6).WithZone("eth1")
 	default:
-		return netip.AddrFrom16([16]byte{10: 0xff, 11: 0xff, 12: 192, 13: 0, 14: 2, 15: byte(n)})
+		return netip.AddrFrom16(v6).WithZone(longZone)
 	}
 }
 
-func dedAddr(n int) netip.Addr {
-	switch n % 3 {
+// bindAddr is the universe of dedicated addresses of the pipeline campaign:
+// the converter accepts only addresses inside the bind set (which no zoned
+// address is), so the twins there are IPv4 / IPv4-mapped only.
+func bindAddr(f, x int) netip.Addr {
+	switch f {
+	case 0:
+		return netip.AddrFrom4([4]byte{198, 51, 100, byte(x)})
 	case 1:
-		return netip.AddrFrom16([16]byte{0x20, 0x01, 0x0d, 0xb8, 1, 15: byte(n)})
-	case 2:
-		return netip.AddrFrom4([4]byte{198, 51, 100, byte(n)})
+		return netip.AddrFrom16([16]byte{10: 0xff, 11: 0xff, 12: 198, 13: 51, 14: 100, 15: byte(x)})
 	default:
-		return netip.AddrFrom16([16]byte{10: 0xff, 11: 0xff, 12: 198, 13: 51, 14: 100, 15: byte(n)})
+		return netip.AddrFrom16([16]byte{0x20, 0x01, 0x0d, 0xb8, 1, 15: byte(x)})
 	}
+}
+
+// checkUniverse panics unless the universes are injective (twins are
+// different keys).
+func checkUniverse() {
+	for pool := 0; pool < 3; pool++ {
+		seen := map[netip.Addr]bool{}
+		nf := nFlavour
+		if pool == 2 {
+			nf = 3
+		}
+		for f := 0; f < nf; f++ {
+			for x := 0; x < nHost; x++ {
+				a := bindAddr(f, x)
+				if pool < 2 {
+					a = univAddr(pool, f, x)
+				}
+				if seen[a] || !a.IsValid() {
+					panic(fmt.Sprintf("address universe %d is not injective at flavour %d host %d: %s", pool, f, x, a))
+				}
+				seen[a] = true
+			}
+		}
+	}
+}
+
+type addrLayout struct {
+	linked, ded [nIP + 1]netip.Addr
+}
+
+// classicLayout is the layout of the earlier rounds: one address per family.
+func classicLayout() (l addrLayout) {
+	for n := 1; n <= nIP; n++ {
+		switch n % 3 {
+		case 1:
+			l.linked[n] = netip.AddrFrom4([4]byte{192, 0, 2, byte(n)})
+			l.ded[n] = netip.AddrFrom16([16]byte{0x20, 0x01, 0x0d, 0xb8, 1, 15: byte(n)})
+		case 2:
+			l.linked[n] = netip.AddrFrom16([16]byte{0x20, 0x01, 0x0d, 0xb8, 15: byte(n)})
+			l.ded[n] = netip.AddrFrom4([4]byte{198, 51, 100, byte(n)})
+		default:
+			l.linked[n] = netip.AddrFrom16([16]byte{10: 0xff, 11: 0xff, 12: 192, 13: 0, 14: 2, 15: byte(n)})
+			l.ded[n] = netip.AddrFrom16([16]byte{10: 0xff, 11: 0xff, 12: 198, 13: 51, 14: 100, 15: byte(n)})
+		}
+	}
+
+	return l
+}
+
+// layout is the layout of the case that is running.
+var layout = classicLayout()
+
+// drawPool draws nIP different addresses out of nf flavours × hosts lo..hi of
+// a universe; a later address is, more often than not, a twin of an earlier
+// one (same host number, another flavour).
+func drawPool(rng *rand.Rand, nf, lo, hi int, univ func(f, x int) netip.Addr) (out [nIP + 1]netip.Addr) {
+	type fx struct{ f, x int }
+	used := map[fx]bool{}
+	var picked []fx
+	for n := 1; n <= nIP; n++ {
+		for {
+			c := fx{f: rng.IntN(nf), x: lo + rng.IntN(hi-lo+1)}
+			if len(picked) > 0 && rng.IntN(3) != 0 {
+				c.x = picked[rng.IntN(len(picked))].x
+			}
+			if !used[c] {
+				used[c] = true
+				picked = append(picked, c)
+				out[n] = univ(c.f, c.x)
+
+				break
+			}
+		}
+	}
+
+	return out
+}
+
+// addrClasses names the input classes a pool of addresses contains.
+func addrClasses(pool []netip.Addr) (out []string) {
+	has := map[string]bool{}
+	for i, a := range pool {
+		if !a.IsValid() {
+			continue
+		}
+		if a.Zone() != "" {
+			has["zoned"] = true
+		}
+		if a.Is4In6() {
+			has["ipv4-mapped"] = true
+		}
+		if a.WithZone("").Unmap().IsUnspecified() {
+			has["unspecified"] = true
+		}
+		for _, b := range pool[:i] {
+			switch {
+			case !b.IsValid():
+			case a.WithZone("") == b.WithZone(""):
+				has["twins-differ-in-zone-only"] = true
+			case a.WithZone("").Unmap() == b.WithZone("").Unmap():
+				has["twins-ipv4-and-mapped"] = true
+			}
+		}
+	}
+	for k := range has {
+		out = append(out, k)
+	}
+	sort.Strings(out)
+
+	return out
+}
+
+// newLayout draws the layout of the next case.  bindSafe: the dedicated
+// addresses have to lie inside the bind set of the pipeline campaign.
+func (h *harness) newLayout(campaign string, bindSafe bool) {
+	if h.lrng == nil {
+		h.lrng = h.o.Rand("layout")
+	}
+	rng := h.lrng
+	layout = classicLayout()
+	if rng.IntN(4) == 0 {
+		h.r.Count(campaign + ":layout:classic")
+
+		return
+	}
+	layout.linked = drawPool(rng, nFlavour, 0, nHost-1, func(f, x int) netip.Addr { return univAddr(0, f, x) })
+	switch {
+	case bindSafe:
+		layout.ded = drawPool(rng, 3, 1, nHost-1, bindAddr)
+	case rng.IntN(4) == 0:
+		// The same addresses are linked and dedicated addresses.
+		layout.ded = layout.linked
+		h.r.Count(campaign + ":layout:dedicated-equals-linked")
+	default:
+		layout.ded = drawPool(rng, nFlavour, 0, nHost-1, func(f, x int) netip.Addr { return univAddr(1, f, x) })
+	}
+	for _, c := range addrClasses(layout.linked[1:]) {
+		h.r.Count(campaign + ":layout:linked-" + c)
+	}
+	for _, c := range addrClasses(layout.ded[1:]) {
+		h.r.Count(campaign + ":layout:dedicated-" + c)
+	}
+}
+
+// layoutText renders the layout for replays: key number -> address.
+func layoutText() map[string][]string {
+	out := map[string][]string{}
+	for n := 1; n <= nIP; n++ {
+		out["linked"] = append(out["linked"], fmt.Sprintf("%d=%s", n, layout.linked[n]))
+		out["dedicated"] = append(out["dedicated"], fmt.Sprintf("%d=%s", n, layout.ded[n]))
+	}
+
+	return out
+}
+
+// addrText renders an address like the model driver's showAddr.
+func addrText(a netip.Addr) string {
+	dots := dotsOf
+	switch {
+	case !a.IsValid():
+		return "zero"
+	case a.Is4():
+		return "v4 " + dots(a.AsSlice())
+	default:
+		return "v6 " + dots(a.AsSlice()) + " " + dots([]byte(a.Zone()))
+	}
+}
+
+// addrLine is a model line (`addr`, `rtaddr`) about a byte string.
+func addrLine(op string, b []byte) string {
+	var sb strings.Builder
+	sb.WriteString(op)
+	for _, x := range b {
+		fmt.Fprintf(&sb, " %d", x)
+	}
+
+	return sb.String()
+}
+
+// linkedAddr and dedAddr map the key pools onto the addresses of the running
+// case; 0 is "no address".
+func linkedAddr(n int) netip.Addr {
+	if n <= 0 || n > nIP {
+		return netip.Addr{}
+	}
+
+	return layout.linked[n]
+}
+
+func dedAddr(n int) netip.Addr {
+	if n <= 0 || n > nIP {
+		return netip.Addr{}
+	}
+
+	return layout.ded[n]
 }
 
 func (d devRec) real() *agd.Device {
@@ -764,7 +1007,7 @@ func (h *harness) runCase(campaign string, ops []op, path string, report bool) (
 			}
 			// executed: the model lines run so far (responses as served), a
 			// complete recipe for a scripted storage.
-			r.Violate(sig, what, map[string]any{"campaign": campaign, "ops": replay, "executed": slices.Clone(lines[1:])})
+			r.Violate(sig, what, map[string]any{"campaign": campaign, "ops": replay, "executed": slices.Clone(lines[1:]), "addresses": layoutText()})
 		}
 	}
 
@@ -956,7 +1199,7 @@ func (h *harness) runCase(campaign string, ops []op, path string, report bool) (
 		if got[i] != want[i] {
 			if report {
 				r.Disagree("model-vs-profiledb", fmt.Sprintf("%s: line %d %q: model %q, implementation %q", campaign, i, lines[i], got[i], want[i]),
-					map[string]any{"campaign": campaign, "ops": lines})
+					map[string]any{"campaign": campaign, "ops": lines, "addresses": layoutText()})
 			}
 			sigs = append(sigs, "disagree")
 
@@ -995,7 +1238,7 @@ func (h *harness) oracle(ref *reference, o op, res lookRes, pendingAcross bool, 
 		return
 	}
 	if res.kind == "err" {
-		violate("lookup-unexpected-error", fmt.Sprintf("%s: unexpected error %v", o.line(), res.err))
+		violate("lookup-unexpected-error", fmt.Sprintf("%s: unexpected error %v", keyText(o), res.err))
 
 		return
 	}
@@ -1009,26 +1252,40 @@ func (h *harness) oracle(ref *reference, o op, res lookRes, pendingAcross bool, 
 	}
 	switch {
 	case len(own) == 0 && res.kind == "ok":
-		violate("lookup-"+o.kind+"-found-but-unowned", fmt.Sprintf("%s returned (%s, %s) although no current device owns the key", o.line(), res.pid, res.did))
+		violate("lookup-"+o.kind+"-found-but-unowned", fmt.Sprintf("%s returned (%s, %s) although no current device owns the key", keyText(o), res.pid, res.did))
 	case len(own) == 1 && res.kind != "ok":
 		if pendingAcross {
 			violate("cleanup-overtaken-by-sync-deletes-new-owner:"+o.kind, fmt.Sprintf(
 				"%s is not-found although device d%d of profile p%d currently owns the key (a clean-up was pending across a synchronisation in this case: a clean-up started by an earlier look-up may have removed the new owner's entry)",
-				o.line(), own[0].did, own[0].pid))
+				keyText(o), own[0].did, own[0].pid))
 		} else {
 			violate("lookup-"+o.kind+"-owner-not-found", fmt.Sprintf(
 				"%s is not-found although device d%d of profile p%d currently owns the key in the latest synchronised data (no clean-up was pending across a synchronisation: the data was not requested, not applied, or not indexed)",
-				o.line(), own[0].did, own[0].pid))
+				keyText(o), own[0].did, own[0].pid))
 		}
 	case len(own) == 1:
 		p, d := ref.profs[own[0].pid], ref.devs[own[0].did]
 		if res.pid != string(pidStr(p.id)) || res.did != string(didStr(d.id)) {
-			violate("lookup-"+o.kind+"-wrong-owner", fmt.Sprintf("%s returned (%s, %s), owner is (p%d, d%d)", o.line(), res.pid, res.did, p.id, d.id))
+			violate("lookup-"+o.kind+"-wrong-owner", fmt.Sprintf("%s returned (%s, %s), owner is (p%d, d%d)", keyText(o), res.pid, res.did, p.id, d.id))
 		} else if res.ptag != p.tag || res.dtag != d.tag || res.p.Deleted != p.deleted || res.p.AutoDevicesEnabled != p.auto ||
-			res.d.LinkedIP != linkedAddr(d.linked) || res.d.HumanIDLower != humStr(d.human) || len(res.d.DedicatedIPs) != len(d.ded) {
-			violate("lookup-"+o.kind+"-stale-record", fmt.Sprintf("%s returned an outdated record of (p%d, d%d)", o.line(), p.id, d.id))
+			res.d.LinkedIP != linkedAddr(d.linked) || res.d.HumanIDLower != humStr(d.human) ||
+			!slices.EqualFunc(res.d.DedicatedIPs, d.ded, func(a netip.Addr, n int) bool { return a == dedAddr(n) }) {
+			violate("lookup-"+o.kind+"-stale-record", fmt.Sprintf("%s returned an outdated or altered record of (p%d, d%d): linked IP %v (latest data: %v), dedicated IPs %v (latest data: keys %v of %v)",
+				keyText(o), p.id, d.id, res.d.LinkedIP, linkedAddr(d.linked), res.d.DedicatedIPs, d.ded, layoutText()["dedicated"]))
 		}
 	}
+}
+
+// keyText renders a look-up with the address its key number stands for.
+func keyText(o op) string {
+	switch o.kind {
+	case "link":
+		return fmt.Sprintf("%s (ProfileByLinkedIP %s)", o.line(), linkedAddr(o.a))
+	case "ded":
+		return fmt.Sprintf("%s (ProfileByDedicatedIP %s)", o.line(), dedAddr(o.a))
+	}
+
+	return o.line()
 }
 
 // patchVersion appends a second `version` field to the cache file; the last
@@ -1595,6 +1852,7 @@ func (h *harness) scheduleCampaign() {
 	}
 	shrunk := 0
 	for i := 0; i < n; i++ {
+		h.newLayout("schedule", false)
 		ops := h.genHistory(rng, "schedule", 6+rng.IntN(30), []int{0, 0, 10, 50}[rng.IntN(4)], false)
 		if sigs := h.runCase("schedule", ops, "none", true); len(sigs) > 0 && shrunk < 4 {
 			shrunk++
@@ -1614,6 +1872,7 @@ func (h *harness) malformedCampaign() {
 		n = 10000
 	}
 	for i := 0; i < n; i++ {
+		h.newLayout("malformed", false)
 		var ops []op
 		tag := 0
 		for k := 2 + rng.IntN(6); k > 0; k-- {
@@ -1670,6 +1929,7 @@ func (h *harness) restartCampaign() {
 	path := filepath.Join(h.dir, "restart", "cache.pb")
 	shrunk := 0
 	for i := 0; i < n; i++ {
+		h.newLayout("restart", false)
 		ops := h.genHistory(rng, "restart", 8+rng.IntN(25), 100, true)
 		if sigs := h.runCase("restart", ops, path, true); len(sigs) > 0 && shrunk < 2 {
 			shrunk++
@@ -1778,12 +2038,23 @@ func (h *harness) protocolCampaign() {
 		if restarts {
 			p = path
 		}
+		h.newLayout("protocol", false)
 		ops := h.genProtocol(rng, 6+rng.IntN(14), restarts)
 		if sigs := h.runCase("protocol", ops, p, true); len(sigs) > 0 && shrunk < 3 {
 			shrunk++
 			h.reportShrunk("protocol", ops, p)
 		}
 	}
+}
+
+// witnessLayouts: the layout of the earlier rounds and one whose keys 1 and 2
+// differ in the zone only.
+func witnessLayouts() []addrLayout {
+	z := classicLayout()
+	z.linked[1], z.linked[2], z.linked[3] = univAddr(0, flV6Eth0, 1), univAddr(0, flV6, 1), univAddr(0, flV6Eth1, 1)
+	z.ded[1], z.ded[2], z.ded[3] = univAddr(1, flMappedZone, 2), univAddr(1, flMapped, 2), univAddr(1, flV4, 2)
+
+	return []addrLayout{classicLayout(), z}
 }
 
 // witnessCases replays the Lean counter-example witnesses on the real code.
@@ -1828,10 +2099,14 @@ func (h *harness) witnessCases() {
 				{kind: "flush"}, {kind: "dev", a: 1},
 			}
 		}
-		h.runCase("witness", ops, "none", true)
+		for _, l := range witnessLayouts() {
+			layout = l
+			h.runCase("witness", ops, "none", true)
+		}
 		h.r.Count("witness:cleanup-overtaken-" + kind)
 	}
 	// device with a human id moves to another profile
+	layout = classicLayout()
 	h.runCase("witness", []op{
 		{kind: "sync", rs: resp{full: true, profs: []profRec{{id: 1, devs: []int{1}, tag: 1}, {id: 2, tag: 2}}, devs: []devRec{a(1, 0, 1)}}},
 		{kind: "sync", rs: resp{profs: []profRec{{id: 2, devs: []int{1}, tag: 3}, {id: 1, tag: 4}}, devs: []devRec{a(1, 0, 1)}}},
@@ -1941,6 +2216,7 @@ func (h *harness) exhaustiveCampaign() {
 			ops = append(ops, op{kind: "flush"})
 			ops = append(ops, looks...)
 			ops = append(ops, op{kind: "snap"})
+			layout = witnessLayouts()[count%2]
 			h.runCase("exhaustive", ops, "none", true)
 			count++
 		}
@@ -2046,7 +2322,7 @@ func (h *harness) randProfile(rng *rand.Rand, id string, devIDs []agd.DeviceID) 
 		h.r.Count("cache:access-default")
 	}
 	var bm dnsmsg.BlockingMode
-	switch rng.IntN(6) {
+	switch rng.IntN(8) {
 	case 0:
 		bm = &dnsmsg.BlockingModeNXDOMAIN{}
 	case 1:
@@ -2057,6 +2333,23 @@ func (h *harness) randProfile(rng *rand.Rand, id string, devIDs []agd.DeviceID) 
 		bm = &dnsmsg.BlockingModeCustomIP{IPv6: []netip.Addr{netip.MustParseAddr("2001:db8::1")}}
 	case 4:
 		bm = &dnsmsg.BlockingModeCustomIP{IPv4: []netip.Addr{netip.MustParseAddr("0.0.0.0")}, IPv6: []netip.Addr{netip.MustParseAddr("::ffff:1.2.3.4")}}
+	case 5, 6:
+		// Whatever addresses backendpb accepts for the two fields (it does not
+		// look at the family): zoned, IPv4-mapped, unspecified ones included.
+		c := &dnsmsg.BlockingModeCustomIP{}
+		for k := rng.IntN(3); k > 0; k-- {
+			c.IPv4 = append(c.IPv4, univAddr(rng.IntN(2), rng.IntN(nFlavour), rng.IntN(nHost)))
+		}
+		for k := rng.IntN(3); k > 0; k-- {
+			c.IPv6 = append(c.IPv6, univAddr(rng.IntN(2), rng.IntN(nFlavour), rng.IntN(nHost)))
+		}
+		if len(c.IPv4)+len(c.IPv6) == 0 {
+			c.IPv6 = []netip.Addr{univAddr(0, flV6Eth0, 1)}
+		}
+		for _, cl := range addrClasses(append(slices.Clone(c.IPv4), c.IPv6...)) {
+			h.r.Count("cache:custom-blocking-ip-" + cl)
+		}
+		bm = c
 	default:
 		bm = &dnsmsg.BlockingModeNullIP{}
 	}
@@ -2086,7 +2379,7 @@ func (h *harness) randProfile(rng *rand.Rand, id string, devIDs []agd.DeviceID) 
 
 // randDevice generates a device as `backendpb` can produce it.  authLine is the
 // model's `rtauth` op for its authentication settings.
-func (h *harness) randDevice(rng *rand.Rand, id string, n int) (d *agd.Device, authLine string) {
+func (h *harness) randDevice(rng *rand.Rand, id string, n int, usedL, usedD map[netip.Addr]bool) (d *agd.Device, authLine string) {
 	bit := func() bool { return rng.IntN(2) == 0 }
 	auth := &agd.AuthSettings{Enabled: false, PasswordHash: agdpasswd.AllowAuthenticator{}}
 	authLine = "rtauth 0 0 0"
@@ -2104,23 +2397,43 @@ func (h *harness) randDevice(rng *rand.Rand, id string, n int) (d *agd.Device, a
 		h.r.Count("cache:auth-disabled")
 	}
 	var linked netip.Addr
-	switch rng.IntN(4) {
+	switch rng.IntN(8) {
+	case 0:
 	case 1:
-		linked = netip.AddrFrom4([4]byte{192, 0, 2, byte(n)})
+		linked = netip.AddrFrom4([4]byte{192, 0, 2, 100 + byte(n)})
 	case 2:
 		linked = netip.AddrFrom16([16]byte{0x20, 0x01, 0xd, 0xb8, 15: byte(n)})
 	case 3:
 		linked = netip.AddrFrom16([16]byte{10: 0xff, 11: 0xff, 12: 10, 15: byte(n)})
+	default:
+		// A value from the universe of twins that no other device of this
+		// cache has.
+		for try := 0; try < 20 && (!linked.IsValid() || usedL[linked]); try++ {
+			linked = univAddr(0, rng.IntN(nFlavour), rng.IntN(nHost))
+		}
+		if usedL[linked] {
+			linked = netip.Addr{}
+		}
 	}
+	usedL[linked] = true
 	var ded []netip.Addr
 	for k := rng.IntN(4); k > 0; k-- {
-		switch rng.IntN(3) {
+		var a netip.Addr
+		switch rng.IntN(6) {
 		case 0:
-			ded = append(ded, netip.AddrFrom4([4]byte{198, 51, byte(n), byte(k)}))
+			a = netip.AddrFrom4([4]byte{198, 51, byte(n), byte(k)})
 		case 1:
-			ded = append(ded, netip.AddrFrom16([16]byte{0x20, 0x01, 0xd, 0xb8, 2, 14: byte(n), 15: byte(k)}))
+			a = netip.AddrFrom16([16]byte{0x20, 0x01, 0xd, 0xb8, 2, 14: byte(n), 15: byte(k)})
+		case 2:
+			a = netip.AddrFrom16([16]byte{10: 0xff, 11: 0xff, 12: 198, 13: 51, 14: byte(n), 15: byte(k)})
 		default:
-			ded = append(ded, netip.AddrFrom16([16]byte{10: 0xff, 11: 0xff, 12: 198, 13: 51, 14: byte(n), 15: byte(k)}))
+			for try := 0; try < 20 && (!a.IsValid() || usedD[a]); try++ {
+				a = univAddr(rng.IntN(2), rng.IntN(nFlavour), rng.IntN(nHost))
+			}
+		}
+		if a.IsValid() && !usedD[a] {
+			usedD[a] = true
+			ded = append(ded, a)
 		}
 	}
 	human := agd.HumanIDLower("")
@@ -2225,8 +2538,79 @@ func canonDevice(d *agd.Device) string {
 	return fmt.Sprintf("%s id=%q linked=%s name=%q human=%q ded=%v flt=%t", canonAuth(d.Auth), d.ID, d.LinkedIP, d.Name, d.HumanIDLower, d.DedicatedIPs, d.FilteringEnabled)
 }
 
+// addrCodecCampaign compares the model of netip.Addr's binary form with netip
+// itself: every address of the universes, the zero value, and byte strings of
+// every length up to 40 (the lengths UnmarshalBinary rejects included).
+func (h *harness) addrCodecCampaign() {
+	rng := h.o.Rand("addrcodec")
+	var inputs [][]byte
+	inputs = append(inputs, nil)
+	for f := 0; f < nFlavour; f++ {
+		for x := 0; x < nHost; x++ {
+			inputs = append(inputs, ipBytes(univAddr(0, f, x)), ipBytes(univAddr(1, f, x)))
+		}
+	}
+	n := 300
+	if h.o.Thorough() {
+		n = 3000
+	}
+	for k := 0; k < n; k++ {
+		b := make([]byte, k%41)
+		for i := range b {
+			b[i] = byte(rng.IntN(256))
+		}
+		inputs = append(inputs, b)
+	}
+	var lines, want []string
+	for _, b := range inputs {
+		lines = append(lines, addrLine("addr", b))
+		var a netip.Addr
+		if err := a.UnmarshalBinary(b); err != nil {
+			want = append(want, "err")
+			h.r.Count("addrcodec:rejected-length")
+
+			continue
+		}
+		back, _ := a.MarshalBinary()
+		want = append(want, addrText(a)+" | "+dotsOf(back))
+		switch {
+		case !a.IsValid():
+			h.r.Count("addrcodec:zero")
+		case a.Zone() != "":
+			h.r.Count("addrcodec:zoned")
+		case a.Is4():
+			h.r.Count("addrcodec:ipv4")
+		default:
+			h.r.Count("addrcodec:ipv6")
+		}
+	}
+	ans := h.m.Batch(lines)
+	h.r.ModelOps += len(lines)
+	for k := range lines {
+		if ans[k] != want[k] {
+			h.r.Disagree("model-vs-netip", fmt.Sprintf("%q: model %q, netip %q", lines[k], ans[k], want[k]), map[string]any{"campaign": "addrcodec", "line": lines[k]})
+
+			break
+		}
+	}
+	h.r.Traces++
+}
+
+func dotsOf(b []byte) string {
+	if len(b) == 0 {
+		return "-"
+	}
+	parts := make([]string, len(b))
+	for i, x := range b {
+		parts[i] = fmt.Sprint(x)
+	}
+
+	return strings.Join(parts, ".")
+}
+
 func (h *harness) roundTripCampaign() {
 	debug.SetGCPercent(100)
+	h.addrCodecCampaign()
 	rng := h.o.Rand("roundtrip")
 	n := 1000
 	if h.o.Thorough() {
@@ -2260,11 +2644,12 @@ func (h *harness) roundTripCampaign() {
 			np, nd = 1+rng.IntN(3), 1+rng.IntN(4)
 		}
 		c := &profiledb.VerifC14FileCache{SyncTime: randTime(rng), Version: cacheVerOK}
-		var lines, want []string
+		var lines, want, alines, awant []string
 		perProf := make([][]agd.DeviceID, max(np, 1))
+		usedL, usedD := map[netip.Addr]bool{}, map[netip.Addr]bool{}
 		for k := 0; k < nd; k++ {
 			id := fmt.Sprintf("dev%d", k)
-			d, line := h.randDevice(rng, id, k+1)
+			d, line := h.randDevice(rng, id, k+1, usedL, usedD)
 			c.Devices = append(c.Devices, d)
 			lines = append(lines, line)
 			pi := rng.IntN(len(perProf))
@@ -2321,6 +2706,35 @@ func (h *harness) roundTripCampaign() {
 					}
 				}
 				lines = append(authLines, fmt.Sprintf("load %d %d %d", ver, np, nd))
+				// Every address of the cache: what the model says its binary
+				// form reads back as, against what came back.
+				addrPair := func(stored, loaded netip.Addr) {
+					alines = append(alines, addrLine("rtaddr", ipBytes(stored)))
+					awant = append(awant, addrText(loaded)+" | …")
+					for _, cl := range addrClasses([]netip.Addr{stored}) {
+						h.r.Count("cache:address-" + cl)
+					}
+				}
+				for k, p := range c.Profiles {
+					m, ok := p.BlockingMode.(*dnsmsg.BlockingModeCustomIP)
+					m2, ok2 := got.Profiles[k].BlockingMode.(*dnsmsg.BlockingModeCustomIP)
+					if ok && ok2 && len(m.IPv4) == len(m2.IPv4) && len(m.IPv6) == len(m2.IPv6) {
+						for j := range m.IPv4 {
+							addrPair(m.IPv4[j], m2.IPv4[j])
+						}
+						for j := range m.IPv6 {
+							addrPair(m.IPv6[j], m2.IPv6[j])
+						}
+					}
+				}
+				for k, d := range c.Devices {
+					if g := got.Devices[k]; len(g.DedicatedIPs) == len(d.DedicatedIPs) {
+						addrPair(d.LinkedIP, g.LinkedIP)
+						for j := range d.DedicatedIPs {
+							addrPair(d.DedicatedIPs[j], g.DedicatedIPs[j])
+						}
+					}
+				}
 				for k, d := range c.Devices {
 					a, b := canonDevice(d), canonDevice(got.Devices[k])
 					want = append(want, authModelText(got.Devices[k].Auth))
@@ -2368,13 +2782,70 @@ func (h *harness) roundTripCampaign() {
 					} else if canonDevice(d2) != canonDevice(got.Devices[k]) || canonProfile(p2) != canonProfile(got.Profiles[owner]) {
 						h.r.Violate("restart-lookup-differs", "look-up after restart returns other settings than the cache holds", nil)
 					}
+					// The same through the three other indexes, by the keys the
+					// device had when the cache was written.
+					replay := map[string]any{"campaign": "roundtrip", "case": i, "stored": canonDevice(d),
+						"how": "VerifC14StoreCache of a cache with this device (listed by profile " + string(c.Profiles[owner].ID) + "), profiledb.New on the file, then the look-up"}
+					byKey := func(what string, key any, p3 *agd.Profile, d3 *agd.Device, err error) {
+						h.r.Evaluations++
+						switch {
+						case err != nil:
+							h.r.Violate("restart-lookup-lost", fmt.Sprintf("%s(%v) after a restart from the cache: %v; device %s owned the key when the cache was written", what, key, err, d.ID), replay)
+						case d3.ID != d.ID || p3.ID != c.Profiles[owner].ID:
+							h.r.Violate("restart-lookup-differs", fmt.Sprintf("%s(%v) after a restart from the cache returns (%s, %s); (%s, %s) owned the key when the cache was written", what, key, p3.ID, d3.ID, c.Profiles[owner].ID, d.ID), replay)
+						case canonDevice(d3) != canonDevice(d):
+							h.r.Violate("restart-lookup-differs", fmt.Sprintf("%s(%v) after a restart from the cache returns the device with other settings:\n stored %s\n found  %s", what, key, canonDevice(d), canonDevice(d3)), replay)
+						}
+					}
+					if d.LinkedIP.IsValid() {
+						p3, d3, err := x.db.ProfileByLinkedIP(ctx, d.LinkedIP)
+						byKey("ProfileByLinkedIP", d.LinkedIP, p3, d3, err)
+					}
+					for _, ip := range d.DedicatedIPs {
+						p3, d3, err := x.db.ProfileByDedicatedIP(ctx, ip)
+						byKey("ProfileByDedicatedIP", ip, p3, d3, err)
+					}
+					if d.HumanIDLower != "" {
+						p3, d3, err := x.db.ProfileByHumanID(ctx, c.Profiles[owner].ID, d.HumanIDLower)
+						byKey("ProfileByHumanID", d.HumanIDLower, p3, d3, err)
+					}
+				}
+				// Keys nobody owned when the cache was written — every twin of an
+				// owned address in particular — are not found.
+				if len(perProf) == np {
+					for f := 0; f < nFlavour; f++ {
+						for xh := 0; xh < nHost; xh++ {
+							for pool := 0; pool < 2; pool++ {
+								a := univAddr(pool, f, xh)
+								if !usedL[a] {
+									h.r.Evaluations++
+									if p3, d3, err := x.db.ProfileByLinkedIP(ctx, a); err == nil {
+										h.r.Violate("restart-lookup-found-but-unowned", fmt.Sprintf("ProfileByLinkedIP(%s) after a restart from the cache returns (%s, %s, linked IP %v); no device of the cache had this linked IP", a, p3.ID, d3.ID, d3.LinkedIP),
+											map[string]any{"campaign": "roundtrip", "case": i, "found": canonDevice(d3), "how": "VerifC14StoreCache, profiledb.New on the file, ProfileByLinkedIP"})
+									}
+								}
+								if !usedD[a] {
+									h.r.Evaluations++
+									if p3, d3, err := x.db.ProfileByDedicatedIP(ctx, a); err == nil {
+										h.r.Violate("restart-lookup-found-but-unowned", fmt.Sprintf("ProfileByDedicatedIP(%s) after a restart from the cache returns (%s, %s, dedicated IPs %v); no device of the cache had this dedicated IP", a, p3.ID, d3.ID, d3.DedicatedIPs),
+											map[string]any{"campaign": "roundtrip", "case": i, "found": canonDevice(d3), "how": "VerifC14StoreCache, profiledb.New on the file, ProfileByDedicatedIP"})
+									}
+								}
+							}
+						}
+					}
 				}
 			}
+			lines, want = append(lines, alines...), append(want, awant...)
 			ans := h.m.Batch(lines)
 			h.r.ModelOps += len(lines)
 			for k := range lines {
+				if pre, ok := strings.CutSuffix(want[k], "…"); ok && strings.HasPrefix(ans[k], pre) {
+					continue
+				}
 				if ans[k] != want[k] {
-					h.r.Disagree("model-vs-filecache", fmt.Sprintf("%q: model %q, implementation %q", lines[k], ans[k], want[k]), nil)
+					h.r.Disagree("model-vs-filecache", fmt.Sprintf("%q: model %q, implementation %q", lines[k], ans[k], want[k]),
+						map[string]any{"campaign": "roundtrip", "case": i, "line": lines[k]})
 				}
 			}
 			var canon []string
